@@ -56,7 +56,7 @@ use nohash_hasher::BuildNoHashHasher;
 // ------------------------------------------------------------
 
 pub use crate::ser_error::Error;
-use crate::ser_quoting::{is_plain_safe, is_plain_value_safe};
+use crate::ser_quoting::{is_plain_safe, is_plain_value_safe, is_unsafe_plain_shape};
 
 /// Result alias.
 pub type Result<T> = std::result::Result<T, Error>;
@@ -687,7 +687,7 @@ impl<'a, W: Write> YamlSerializer<'a, W> {
             } else {
                 self.write_single_quoted(s)
             }
-        } else if is_plain_safe(s) {
+        } else if is_plain_safe(s) && !is_unsafe_plain_shape(s) {
             self.out.write_str(s)?;
             Ok(())
         } else {
@@ -745,7 +745,9 @@ impl<'a, W: Write> YamlSerializer<'a, W> {
             } else {
                 self.write_single_quoted(s)
             }
-        } else if is_plain_value_safe(s, self.yaml_12, self.in_flow > 0) {
+        } else if is_plain_value_safe(s, self.yaml_12, self.in_flow > 0)
+            && !is_unsafe_plain_shape(s)
+        {
             self.out.write_str(s)?;
             Ok(())
         } else {
@@ -2824,7 +2826,10 @@ impl<'a> Serializer for &'a mut KeyScalarSink<'a> {
         // like y/n/yes/no) to preserve intended string keys.
         // Be conservative here: keys may be emitted in both block and flow mappings,
         // and flow mappings treat characters like ','/[]/{} as structural.
-        if is_plain_safe(v) && is_plain_value_safe(v, self.yaml_12, true) {
+        if is_plain_safe(v)
+            && is_plain_value_safe(v, self.yaml_12, true)
+            && !is_unsafe_plain_shape(v)
+        {
             self.s.push_str(v);
         } else {
             self.s.push('"');
